@@ -127,6 +127,15 @@ fn compare_parts(
             if got != want {
                 diffs.push(format!("folded URI query {:?} is not the merged multiset", ok.parts.uri.query()));
             }
+            // the path of the rebuilt URI denotes the path that was authenticated: under either mode it has the same
+            // normal form as the path that was submitted
+            for s3 in [false, true] {
+                let a = refmodel::canon::canon_path(submitted.uri().path(), s3, false).map(|p| p.path).ok();
+                let b = refmodel::canon::canon_path(ok.parts.uri.path(), s3, false).map(|p| p.path).ok();
+                if a.is_some() && a != b && folded_mode_is(s3) {
+                    diffs.push(format!("folded URI path {:?} does not denote the submitted path {:?} ({} mode normal forms {:?} vs {:?})", ok.parts.uri.path(), submitted.uri().path(), if s3 { "S3" } else { "standard" }, b, a));
+                }
+            }
         }
     }
     if ok.parts.extensions.get::<Marker>().is_none() {
@@ -176,7 +185,7 @@ fn fold_lists() -> (Vec<Vec<(Vec<u8>, Vec<u8>)>>, Vec<Vec<(Vec<u8>, Vec<u8>)>>) 
 
 fn folded_total() -> u64 {
     let (u, b) = fold_lists();
-    (u.len() * b.len() * 2 * 2 * 3) as u64
+    (u.len() * b.len() * 2 * 2 * 6) as u64
 }
 
 /// One element of the main product (under whatever logger configuration is current).
@@ -340,6 +349,14 @@ fn one_plain(i: u64, hs: &[Vec<(String, Vec<u8>)>], st: &mut Stats) {
     st.sample(i, plain_total(), || json!({"method": method, "version": format!("{:?}", version), "uri": wire.uri, "headers": wire.headers.len(), "body_type": (["()", "Vec<u8>", "Bytes"][body_kind as usize]), "body_len": size, "option": opt, "log_level": level_name()}));
 }
 
+thread_local! {
+    /// the canonicalisation mode of the folded request being compared (set by `one_folded`)
+    static FOLDED_S3: std::cell::Cell<bool> = const { std::cell::Cell::new(false) };
+}
+fn folded_mode_is(s3: bool) -> bool {
+    FOLDED_S3.with(|f| f.get()) == s3
+}
+
 /// One folded form request.
 fn one_folded(i: u64, url_lists: &[Vec<(Vec<u8>, Vec<u8>)>], body_lists: &[Vec<(Vec<u8>, Vec<u8>)>], st: &mut Stats) {
     let now = e2e::base_instant();
@@ -349,8 +366,8 @@ fn one_folded(i: u64, url_lists: &[Vec<(Vec<u8>, Vec<u8>)>], body_lists: &[Vec<(
     x /= 2;
     let s3 = x % 2 == 1;
     x /= 2;
-    let pathk = x % 3;
-    x /= 3;
+    let pathk = x % 6;
+    x /= 6;
     let bl = &body_lists[(x % body_lists.len() as u64) as usize];
     x /= body_lists.len() as u64;
     let ul = &url_lists[x as usize];
@@ -372,9 +389,18 @@ fn one_folded(i: u64, url_lists: &[Vec<(Vec<u8>, Vec<u8>)>], body_lists: &[Vec<(
         plan.signed.push("content-length".into());
         plan.signed.push("x-amz-content-sha256".into());
     }
-    if pathk >= 1 {
+    if pathk == 1 || pathk == 2 {
         plan.segs = vec![b"f o".to_vec(), b"x".to_vec()];
         plan.wire_path = Some(if pathk == 1 { "/f%20o/x".into() } else { "/f%20o/%78".into() });
+    }
+    if pathk >= 3 {
+        // paths with empty and dot segments: normalised in the standard mode, kept as they are in S3 mode
+        let p = ["//bucket/key", "/a//b/./c", "/a/../b//"][(pathk - 3) as usize];
+        plan.wire_path = Some(p.to_string());
+        match refmodel::canon::canon_path(p, s3, false) {
+            Ok(c) => plan.canonical_path = Some(c.path),
+            Err(_) => return,
+        }
     }
     let built = build(&plan);
     let wire = WireReq::from_wire(&built.wire);
@@ -388,6 +414,7 @@ fn one_folded(i: u64, url_lists: &[Vec<(Vec<u8>, Vec<u8>)>], body_lists: &[Vec<(
     st.transitions += 1;
     st.validated += 1;
     st.nontrivial(&(&wire, s3, "fold", log::max_level() as usize));
+    FOLDED_S3.with(|f| f.set(s3));
     let result = sut::validate_http(req, &cfg, &mut provider, 64);
     st.outcome(&format!("fold:{}", result.label()));
     let mut merged = ul.clone();
@@ -448,7 +475,7 @@ pub fn run(ctx: &Ctx) -> Report {
     Report {
         stats: st,
         rule: format!(
-            "accepted (reference-signed) requests: 11 methods (incl. extension methods) x 5 HTTP versions x 4 header multisets (repeated names, non-UTF-8 and empty values, mixed-case names), every second request also carrying a second Authorization and X-Amz-Security-Token header after the ones that count, half of them a session token x body types (), Vec<u8>, Bytes x {} body lengths (11 .. 65537 bytes, around 256) x 4 request-target / host forms (origin, origin with escapes / '+' / '&&', absolute-form, absolute-form without a Host header and ':authority' signed) and three targets without a path (authority-form host:port, absolute-form with no path, asterisk-form; these x methods x versions x body types x options only) x carrier x 4 principals x 3 session data x {{default, S3, fold}}, the whole product once per logger configuration {:?} (no logger output, or a logger that formats every record at that maximum level{}); returned method, version, URI, header names/values/multiplicity/per-name order, body bytes and principal/session data compared with what was submitted / supplied; plus {} folded form requests (URL x body parameter lists x path spelling x S3 x carrier; each with an accurate Content-Length, Content-MD5, Content-Encoding and X-Amz-Content-Sha256, signed for every second one) per logger configuration: body empty and returned query multiset = URL ⊎ body. states = distinct (principal, session size) returned; Extensions marker recorded, not judged",
+            "accepted (reference-signed) requests: 11 methods (incl. extension methods) x 5 HTTP versions x 4 header multisets (repeated names, non-UTF-8 and empty values, mixed-case names), every second request also carrying a second Authorization and X-Amz-Security-Token header after the ones that count, half of them a session token x body types (), Vec<u8>, Bytes x {} body lengths (11 .. 65537 bytes, around 256) x 4 request-target / host forms (origin, origin with escapes / '+' / '&&', absolute-form, absolute-form without a Host header and ':authority' signed) and three targets without a path (authority-form host:port, absolute-form with no path, asterisk-form; these x methods x versions x body types x options only) x carrier x 4 principals x 3 session data x {{default, S3, fold}}, the whole product once per logger configuration {:?} (no logger output, or a logger that formats every record at that maximum level{}); returned method, version, URI, header names/values/multiplicity/per-name order, body bytes and principal/session data compared with what was submitted / supplied; plus {} folded form requests (URL x body parameter lists x 6 paths — plain, escaped, and three with empty / dot segments, one beginning with '//' — x S3 x carrier; the returned path must have the normal form of the submitted one under the server's mode; each with an accurate Content-Length, Content-MD5, Content-Encoding and X-Amz-Content-Sha256, signed for every second one) per logger configuration: body empty and returned query multiset = URL ⊎ body. states = distinct (principal, session size) returned; Extensions marker recorded, not judged",
             BODY_SIZES.len(), levels, if thorough { "" } else { "; quick tier: each level covers a different third of the (method, version, header set) combinations, all other dimensions in full" }, n_f
         ),
         bounds: json!({"combinations_per_level": total, "levels": levels.len(), "folded": n_f}),
